@@ -25,7 +25,7 @@ def occurrences(code, lit, braille):
     """how often the literal is rendered in the braille string (None: the published table has no cell for its decimal mark)"""
     info = B.CODES[code]
     if info["kind"] == "text":
-        return B.count_verbatim(lit, braille)
+        return B.count_verbatim(lit, B.decode_text_digits(code, braille))
     run = B.literal_cells(code, lit)
     if run is None:
         return None
@@ -63,7 +63,7 @@ def judge_tree(sess, tree):
             what = br.get("e") or ""
         return "no-braille", [], "get_braille -> %s: %s" % (br["r"], what), res
     # operands that survived canonicalization (a loss inside set_mathml is C01's to report, not this property's)
-    canon = re.sub(r"<[^>]*>", " ", sm["v"])
+    canon = B.fold_digits(re.sub(r"<[^>]*>", " ", sm["v"]))       # a typeface turns digits into mathematical digits: the same number
     lits = []
     for lit in B.tree_literals(tree):
         if lits.count(lit) < B.count_verbatim(lit, canon):
@@ -81,12 +81,18 @@ def judge_tree(sess, tree):
     return None, [], "", res
 
 
-def minimise(cfg, tree, kind):
-    """shrink the expression, then try to move the configuration to the code's plain one"""
+def minimise(cfg, tree, kind, lost=None):
+    """shrink the expression, then try to move the configuration to the code's plain one.  While shrinking, the literals that are lost
+    must be among those that were lost in the original (otherwise the shrinker drifts to some other, often artificial, loss)."""
+    orig = set(lost or [])
+
+    def same(sess, t):
+        k, l, _, _ = judge_tree(sess, t)
+        return k == kind and (not orig or set(l) <= orig)
     sess = B.Session(cfg)
     try:
         sess.ensure()
-        small = shrink.shrink_tree(tree, lambda t: judge_tree(sess, t)[0] == kind, budget=1200,
+        small = shrink.shrink_tree(tree, lambda t: same(sess, t), budget=1200,
                                    leaf_factory=lambda: [gen.mn("17%s29" % sess.decimal), gen.mi("x")])
     finally:
         sess.close()
@@ -114,6 +120,7 @@ def minimise(cfg, tree, kind):
             t2 = B.set_decimal(small.copy(), s2.decimal)
             if judge_tree(s2, t2)[0] == kind:
                 cfg, small = trial, t2
+                orig = set()
         finally:
             s2.close()
     return cfg, small
@@ -152,7 +159,8 @@ def local_contexts(tree, lost):
             prev = cls(parent.kids[idx - 1]) if idx > 0 else "^"
             nxt = cls(parent.kids[idx + 1]) if idx + 1 < len(parent.kids) else "$"
             attrs = "".join("[%s=%s]" % (k, parent.attrs[k]) for k in sorted(parent.attrs) if k in ("linethickness", "notation", "bevelled"))
-            out.add("%s>%s%s[%d/%d]:%s_%s" % (gp, parent.tag, attrs, idx, len(parent.kids), prev, nxt))
+            styled = "{%s,%s}" % (node.attrs["mathvariant"], "whole" if node.text.isdigit() else "decimal") if node.attrs.get("mathvariant") else ""
+            out.add("%s>%s%s[%d/%d]:%s_%s%s" % (gp, parent.tag, attrs, idx, len(parent.kids), prev, nxt, styled))
     return sorted(out)
 
 
@@ -240,7 +248,7 @@ def report_plain(st, seen_pre, cfg, tree, kind, lost, detail):
     if pre in seen_pre:
         return
     seen_pre.add(pre)
-    mcfg, small = minimise(cfg, tree, kind)
+    mcfg, small = minimise(cfg, tree, kind, lost)
     s3 = B.Session(mcfg)
     try:
         k3, lost3, detail3, _ = judge_tree(s3, small)
@@ -318,7 +326,12 @@ def report_history(st, seen_pre, history, cfg, tree, kind, lost, detail):
                                             "after %s: %s | %s" % (history_sig(history), tree.xml()[:600], detail[:500])))
         return
     hist = shrink.shrink_list(history, lambda h: judge_with_history(h, cfg, tree)[0] == kind, budget=30)
-    small = shrink.shrink_tree(tree, lambda t: judge_with_history(hist, cfg, t)[0] == kind, budget=140,
+    orig = set(lost or [])
+
+    def same(t):
+        k, l, _, _ = judge_with_history(hist, cfg, t)
+        return k == kind and (not orig or set(l) <= orig)
+    small = shrink.shrink_tree(tree, same, budget=140,
                                leaf_factory=lambda: [gen.mn("1907"), gen.mi("x")])
     for i in range(len(hist)):                                   # code preferences of the history that do not matter are dropped
         plain = {"code": hist[i]["code"], "lang": hist[i]["lang"]}
@@ -476,6 +489,31 @@ def pred_row_rule_arity(v, params):
 
 
 core.PREDICATES["c06_row_rule_arity"] = pred_row_rule_arity
+
+
+def pred_typeface_word_end(v, params):
+    """Known finding C06-typeface-word-end-not-forgotten: typeface_to_word_mode keeps the 'typeface word has ended' note when the word ends at
+    white space and writes the terminator after the first digit of a later number.  Holds when every lost literal is plain (no mathvariant of
+    its own), the witness has a token with a typeface (in braille order it may come before or after: index of a root), and the same
+    expression without any mathvariant loses nothing."""
+    w = v["witness"]
+    if w.get("history"):
+        return False
+    tree = B.from_xml(w["mathml"])
+    with B.Session(w["cfg"]) as sess:
+        kind, lost, _, _ = judge_tree(sess, tree)
+        if kind != "lost-operand":
+            return False
+        styled = [n for n, _ in tree.walk() if n.kids is None and n.attrs.get("mathvariant")]
+        if not styled or any(n.tag == "mn" and n.text in lost for n in styled):
+            return False
+        plain = tree.copy()
+        for node, _ in plain.walk():
+            node.attrs.pop("mathvariant", None)
+        return judge_tree(sess, plain)[0] is None
+
+
+core.PREDICATES["c06_typeface_word_end"] = pred_typeface_word_end
 
 
 def replay(witness):
